@@ -463,6 +463,55 @@ theorem C14_predecessors_total (d : AV.DFA σ α) (key : α → Int) (input : Op
   obtain ⟨h1, h2⟩ := C14_predecessors_exhausted d key input h o ho fuel hfinite hfin
   exact ⟨fuel, _, Prod.ext rfl hfin, h1, h2⟩
 
+/-- `successor()` terminates inside the domain (max length given or finite language) and then
+returns the least word of the filtered window set, or `None` iff that set is empty. -/
+theorem C14_successor_total (d : AV.DFA σ α) (key : α → Int) (input : Option (List α))
+    (h : Dom d key input) (o : SuccOpts)
+    (hbound : o.maxLen.isSome = true ∨ (Lang d).Finite) :
+    ∃ fuel,
+      match d.successor key input o fuel with
+      | .word w => (w ∈ Window d o ∧ After key o.strict input w) ∧
+          ∀ w' ∈ Window d o, After key o.strict input w' → w' = w ∨ lexLt key w w'
+      | .none => ∀ w ∈ Window d o, ¬ After key o.strict input w
+      | _ => False := by
+  obtain ⟨fuel, hfin⟩ := C14_termination d key input h { o with reverse := false } hbound
+    (fun hr => by cases hr)
+  refine ⟨fuel, ?_⟩
+  have hs := C14_successor d key input h o fuel
+  have hne : d.successor key input o fuel ≠ .outOfFuel := by
+    unfold DFA.successor firstOf
+    generalize d.successors key input { o with reverse := false } fuel = r at hfin
+    obtain ⟨ys, st⟩ := r
+    simp only at hfin
+    subst hfin
+    cases ys <;> simp
+  revert hs hne
+  cases d.successor key input o fuel <;> simp
+
+/-- `predecessor()` of a finite language terminates and returns the greatest word of the
+filtered window set, or `None` iff that set is empty. -/
+theorem C14_predecessor_total (d : AV.DFA σ α) (key : α → Int) (w0 : List α)
+    (h : Dom d key (some w0)) (o : SuccOpts) (hfinite : (Lang d).Finite) :
+    ∃ fuel,
+      match d.predecessor key w0 o fuel with
+      | .word w => (w ∈ Window d o ∧ Before key o.strict (some w0) w) ∧
+          ∀ w' ∈ Window d o, Before key o.strict (some w0) w' → w' = w ∨ lexLt key w' w
+      | .none => ∀ w ∈ Window d o, ¬ Before key o.strict (some w0) w
+      | _ => False := by
+  obtain ⟨fuel, hfin⟩ := C14_termination d key (some w0) h { o with reverse := true }
+    (Or.inr hfinite) (fun _ => hfinite)
+  refine ⟨fuel, ?_⟩
+  have hs := (C14_predecessor d key w0 h o fuel).2 hfinite
+  have hne : d.predecessor key w0 o fuel ≠ .outOfFuel := by
+    unfold DFA.predecessor DFA.predecessors firstOf
+    generalize d.successors key (some w0) { o with reverse := true } fuel = r at hfin
+    obtain ⟨ys, st⟩ := r
+    simp only at hfin
+    subst hfin
+    cases ys <;> simp
+  revert hs hne
+  cases d.predecessor key w0 o fuel <;> simp
+
 /-- The output does not depend on the fuel once the generator is exhausted: more iterations
 change nothing (so "the" output of the generator is well defined). -/
 theorem C14_output_unique (d : AV.DFA σ α) (key : α → Int) (input : Option (List α))
